@@ -195,10 +195,24 @@ fn merge_if_data(orig_module: &mut Module, merge_module: &mut Module) {
 // ------------------------ UNIT ------------------------
 
 fn merge_unit(orig_module: &mut Module, merge_module: &mut Module) {
-    let (merge_action, mut rename_table) =
-        calculate_item_actions(&orig_module.unit, &merge_module.unit);
-
-    rename_unit_refs(merge_module, &rename_table);
+    // a UNIT can refer to another UNIT (REF_UNIT): renaming a unit changes the units that refer to it, so the
+    // merge actions are re-evaluated until a round produces no new renames
+    let mut rename_table = HashMap::<String, String>::new();
+    let mut merge_action = loop {
+        let (action, mut new_renames) =
+            calculate_item_actions(&orig_module.unit, &merge_module.unit);
+        new_renames.retain(|name, _| !rename_table.contains_key(name));
+        rename_unit_refs(merge_module, &new_renames);
+        let done = new_renames.is_empty();
+        rename_table.extend(new_renames);
+        if done {
+            break action;
+        }
+    };
+    // an item whose references were already redirected to its new name must be merged under that name
+    for name in rename_table.keys() {
+        merge_action.insert(name.clone(), true);
+    }
 
     let merge_unit_list = std::mem::take(&mut merge_module.unit);
     for mut unit in merge_unit_list {
@@ -453,19 +467,45 @@ fn merge_objects(orig_module: &mut Module, merge_module: &mut Module) {
     // objects and typedefs depend on each other.
     // Specifically, the INSTANCE object may reference any TYPEDEF_*, while TYPDEFE_CHARACTERISTIC may reference any MEASUREMENT
     // As a result, all renaming needs to be done first, and then the items can be merged.
-    let orig_objects = orig_module.objects();
-    let merge_objects = merge_module.objects();
-    let (object_merge_action, mut object_rename_table) =
-        calculate_item_actions(&orig_objects, &merge_objects);
+    //
+    // An item of the merge module is only identical to the item of the same name in the orig module if the items it refers to
+    // are represented under the same names. Renaming a referenced item changes the references of the items that use it, so
+    // the merge actions are re-evaluated until a round produces no new renames.
+    let mut object_rename_table = HashMap::<String, String>::new();
+    let mut typedef_rename_table = HashMap::<String, String>::new();
+    let (mut object_merge_action, mut typedef_merge_action) = loop {
+        let (object_merge_action, new_object_renames) = {
+            let orig_objects = orig_module.objects();
+            let merge_objects = merge_module.objects();
+            let (action, mut table) = calculate_item_actions(&orig_objects, &merge_objects);
+            table.retain(|name, _| !object_rename_table.contains_key(name));
+            (action, table)
+        };
+        rename_objects(merge_module, &new_object_renames);
 
-    rename_objects(merge_module, &object_rename_table);
+        let (typedef_merge_action, new_typedef_renames) = {
+            let orig_typedefs = orig_module.typedefs();
+            let merge_typedefs = merge_module.typedefs();
+            let (action, mut table) = calculate_item_actions(&orig_typedefs, &merge_typedefs);
+            table.retain(|name, _| !typedef_rename_table.contains_key(name));
+            (action, table)
+        };
+        rename_typedef_refs(merge_module, &new_typedef_renames);
 
-    let orig_typedefs = orig_module.typedefs();
-    let merge_typedefs = merge_module.typedefs();
-    let (typedef_merge_action, mut typedef_rename_table) =
-        calculate_item_actions(&orig_typedefs, &merge_typedefs);
-
-    rename_typedef_refs(merge_module, &typedef_rename_table);
+        let done = new_object_renames.is_empty() && new_typedef_renames.is_empty();
+        object_rename_table.extend(new_object_renames);
+        typedef_rename_table.extend(new_typedef_renames);
+        if done {
+            break (object_merge_action, typedef_merge_action);
+        }
+    };
+    // an item whose references were already redirected to its new name must be merged under that name
+    for name in object_rename_table.keys() {
+        object_merge_action.insert(name.clone(), true);
+    }
+    for name in typedef_rename_table.keys() {
+        typedef_merge_action.insert(name.clone(), true);
+    }
 
     // merge all objects
     let merge_axis_pts_list = std::mem::take(&mut merge_module.axis_pts);
@@ -999,10 +1039,24 @@ fn merge_frame(orig_module: &mut Module, merge_module: &mut Module) {
 // ------------------------ TRANSFORMER ------------------------
 
 fn merge_transformer(orig_module: &mut Module, merge_module: &mut Module) {
-    let (merge_action, mut rename_table) =
-        calculate_item_actions(&orig_module.transformer, &merge_module.transformer);
-
-    rename_transformer_refs(merge_module, &rename_table);
+    // a TRANSFORMER refers to its inverse TRANSFORMER: renaming one changes the other, so the merge actions are
+    // re-evaluated until a round produces no new renames
+    let mut rename_table = HashMap::<String, String>::new();
+    let mut merge_action = loop {
+        let (action, mut new_renames) =
+            calculate_item_actions(&orig_module.transformer, &merge_module.transformer);
+        new_renames.retain(|name, _| !rename_table.contains_key(name));
+        rename_transformer_refs(merge_module, &new_renames);
+        let done = new_renames.is_empty();
+        rename_table.extend(new_renames);
+        if done {
+            break action;
+        }
+    };
+    // an item whose references were already redirected to its new name must be merged under that name
+    for name in rename_table.keys() {
+        merge_action.insert(name.clone(), true);
+    }
 
     let merge_transformer_list = std::mem::take(&mut merge_module.transformer);
     for mut transformer in merge_transformer_list {
